@@ -78,7 +78,7 @@ type target2 struct {
 	recv   string
 	name   string // Go function ("" for kind const)
 	lean   string
-	kind   string // whole | cond | rhs | ret | field | varBlock | forStep | appendLoop | const | index
+	kind   string // whole | cond | rhs | ret | field | varBlock | forStep | forCond | forPost | appendLoop | const | index
 	sel    string // selector (meaning depends on the kind)
 	tok    string // rhs: assignment token (":=", "=", "|=", …)
 	lit    string // field: composite literal type
@@ -309,6 +309,86 @@ var targets2 = []target2{
 		params: []param{pf("a", "int", "h[i].FeePriority", "TransactionWithFeePriority.FeePriority"), pf("b", "int", "h[j].FeePriority", "TransactionWithFeePriority.FeePriority")}},
 	{file: "pkg/generator/generator.go", recv: "Generator", name: "forge", lean: "genPersistedInfoMaxHeightPrevoted", kind: "field", lit: "GeneratorInfo", sel: "MaxHeightPrevoted",
 		params: []param{ps("maxHeightPrevoted", "uint32", "signedBlock.Header.MaxHeightPrevoted")}},
+
+	// ---- C01/C02: pkg/consensus/liskbft — every loop-free integer expression of the vote counting -------------
+	// (Props/C02_Arith.lean, Props/C01_Arith.lean: equal to the expressions of Model/BFT.lean for all uint32 /
+	// uint64 inputs, or exactly under the stated guard)
+	{file: "pkg/consensus/liskbft/validator.go", recv: "BFTVotes", name: "insertBlockBFTInfo", lean: "bftWindowLen", kind: "index", sel: "make",
+		params: []param{ps("n", "int", "len(v.blockBFTInfos)"), p("maxLength", "int")}},
+	{file: "pkg/consensus/liskbft/validator.go", recv: "BFTVotes", name: "insertBlockBFTInfo", lean: "bftWindowFull", kind: "cond", sel: "maxLength",
+		params: []param{p("i", "int"), p("maxLength", "int")}},
+	{file: "pkg/consensus/liskbft/validator.go", recv: "BFTVotes", name: "updatePrevotesPrecommits", lean: "bftHeaderImpliesNoVotes", kind: "cond", sel: "newBlockBFTInfo.maxHeightGenerated >= ",
+		params: []param{pf("maxHeightGenerated", "uint32", "newBlockBFTInfo.maxHeightGenerated", "BFTBlockHeader.maxHeightGenerated"),
+			pf("height", "uint32", "newBlockBFTInfo.height", "BFTBlockHeader.height")}},
+	{file: "pkg/consensus/liskbft/validator.go", recv: "BFTVotes", name: "updatePrevotesPrecommits", lean: "bftMinPrecommitHeight", kind: "rhs", sel: "minPrecomimtHeight", tok: ":=", want: "uint32",
+		params: []param{pf("minActiveHeight", "uint32", "validatorInfo.minActiveHeight", "ActiveValidator.minActiveHeight"), p("heightNotPrevoted", "uint32"),
+			pf("largestHeightPrecommit", "uint32", "validatorInfo.largestHeightPrecommit", "ActiveValidator.largestHeightPrecommit")}},
+	{file: "pkg/consensus/liskbft/validator.go", recv: "BFTVotes", name: "updatePrevotesPrecommits", lean: "bftMinPrevoteHeight", kind: "rhs", sel: "minPrevoteHeight", tok: ":=", want: "uint32",
+		params: []param{pf("maxHeightGenerated", "uint32", "newBlockBFTInfo.maxHeightGenerated", "BFTBlockHeader.maxHeightGenerated"),
+			pf("minActiveHeight", "uint32", "validatorInfo.minActiveHeight", "ActiveValidator.minActiveHeight")}},
+	{file: "pkg/consensus/liskbft/validator.go", recv: "BFTVotes", name: "updatePrevotesPrecommits", lean: "bftBelowMinPrecommit", kind: "cond", sel: "blockBFTInfo.height < minPrecomimtHeight",
+		params: []param{pf("height", "uint32", "blockBFTInfo.height", "BFTBlockHeader.height"), p("minPrecomimtHeight", "uint32")}},
+	{file: "pkg/consensus/liskbft/validator.go", recv: "BFTVotes", name: "updatePrevotesPrecommits", lean: "bftBelowMinPrevote", kind: "cond", sel: "blockBFTInfo.height < minPrevoteHeight",
+		params: []param{pf("height", "uint32", "blockBFTInfo.height", "BFTBlockHeader.height"), p("minPrevoteHeight", "uint32")}},
+	{file: "pkg/consensus/liskbft/validator.go", recv: "BFTVotes", name: "updatePrevotesPrecommits", lean: "bftHasPrevoteQuorum", kind: "cond", sel: "blockBFTInfo.prevoteWeight >= params.prevoteThreshold",
+		params: []param{pf("prevoteWeight", "uint64", "blockBFTInfo.prevoteWeight", "BFTBlockHeader.prevoteWeight"),
+			pf("prevoteThreshold", "uint64", "params.prevoteThreshold", "BFTParams.prevoteThreshold")}},
+	{file: "pkg/consensus/liskbft/validator.go", recv: "BFTVotes", name: "updatePrevotesPrecommits", lean: "bftAddPrecommitWeight", kind: "rhs", sel: "blockBFTInfo.precommitWeight", tok: "+=", comb: true, want: "uint64",
+		params: []param{pf("precommitWeight", "uint64", "blockBFTInfo.precommitWeight", "BFTBlockHeader.precommitWeight"),
+			pf("bftWeight", "uint64", "bftValidator.bftWeight", "BFTValidator.bftWeight")}},
+	{file: "pkg/consensus/liskbft/validator.go", recv: "BFTVotes", name: "updatePrevotesPrecommits", lean: "bftAddPrevoteWeight", kind: "rhs", sel: "blockBFTInfo.prevoteWeight", tok: "+=", comb: true, want: "uint64",
+		params: []param{pf("prevoteWeight", "uint64", "blockBFTInfo.prevoteWeight", "BFTBlockHeader.prevoteWeight"),
+			pf("bftWeight", "uint64", "bftValidator.bftWeight", "BFTValidator.bftWeight")}},
+	{file: "pkg/consensus/liskbft/validator.go", recv: "BFTVotes", name: "updateMaxHeightPrevoted", lean: "bftPrevotedQuorum", kind: "cond", sel: "prevoteThreshold",
+		params: []param{pf("prevoteWeight", "uint64", "blockBFTInfo.prevoteWeight", "BFTBlockHeader.prevoteWeight"),
+			pf("prevoteThreshold", "uint64", "params.prevoteThreshold", "BFTParams.prevoteThreshold")}},
+	{file: "pkg/consensus/liskbft/validator.go", recv: "BFTVotes", name: "updateMaxHeightPrecommitted", lean: "bftPrecommittedQuorum", kind: "cond", sel: "precommitThreshold",
+		params: []param{pf("precommitWeight", "uint64", "blockBFTInfo.precommitWeight", "BFTBlockHeader.precommitWeight"),
+			pf("precommitThreshold", "uint64", "params.precommitThreshold", "BFTParams.precommitThreshold")}},
+	{file: "pkg/consensus/liskbft/validator.go", recv: "BFTVotes", name: "getHeightNotPrevoted", lean: "bftHnpInWindow", kind: "forCond", sel: "heightPreviousBlock",
+		params: []param{p("currentHeight", "uint32"), p("heightPreviousBlock", "uint32"), ps("n", "int", "len(v.blockBFTInfos)")}},
+	{file: "pkg/consensus/liskbft/validator.go", recv: "BFTVotes", name: "getHeightNotPrevoted", lean: "bftHnpIndex", kind: "index", sel: "v.blockBFTInfos", nth: 2, count: 3,
+		params: []param{p("currentHeight", "uint32"), p("heightPreviousBlock", "uint32")}},
+	{file: "pkg/consensus/liskbft/validator.go", recv: "BFTVotes", name: "getHeightNotPrevoted", lean: "bftHnpOldestIndex", kind: "index", sel: "v.blockBFTInfos", nth: 3, count: 3,
+		params: []param{ps("n", "int", "len(v.blockBFTInfos)")}},
+	{file: "pkg/consensus/liskbft/validator.go", recv: "BFTVotes", name: "getHeightNotPrevoted", lean: "bftHnpStops", kind: "cond", sel: "blockBFTInfo.maxHeightGenerated >= heightPreviousBlock",
+		params: []param{ps("sameGenerator", "bool", "bytes.Equal(blockBFTInfo.generatorAddress, newBlockBFTInfo.generatorAddress)"),
+			pf("maxHeightGenerated", "uint32", "blockBFTInfo.maxHeightGenerated", "BFTBlockHeader.maxHeightGenerated"), p("heightPreviousBlock", "uint32")}},
+	{file: "pkg/consensus/liskbft/validator.go", recv: "BFTVotes", name: "getHeightNotPrevoted", lean: "bftHnpFallback", kind: "ret", nth: 2, count: 2, want: "uint32",
+		params: []param{pf("oldestHeight", "uint32", "oldest.height", "BFTBlockHeader.height")}},
+	{file: "pkg/consensus/liskbft/validator.go", recv: "bftParamsCache", name: "cache", lean: "bftCacheLoopCond", kind: "forCond", sel: "height <= to",
+		params: []param{p("height", "uint32"), p("to", "uint32")}},
+	{file: "pkg/consensus/liskbft/validator.go", recv: "bftParamsCache", name: "cache", lean: "bftCacheLoopNext", kind: "forPost", sel: "height <= to",
+		params: []param{p("height", "uint32")}},
+	{file: "pkg/consensus/liskbft/validator.go", recv: "bftParamsCache", name: "cache", lean: "bftCacheHasLower", kind: "cond", sel: "from > 0",
+		params: []param{p("from", "uint32")}},
+	{file: "pkg/consensus/liskbft/module.go", recv: "Module", name: "Init", lean: "bftMaxLengthBlock", kind: "rhs", sel: "m.maxLengthBlock", tok: "=", want: "int",
+		params: []param{pf("batchSize", "int", "m.batchSize", "Module.batchSize")}},
+	{file: "pkg/consensus/liskbft/module.go", recv: "Module", name: "BeforeTransactionsExecute", lean: "bftMinHeightParamsRequired", kind: "rhs", sel: "minHeightBFTParamsRequired", tok: ":=", want: "uint32",
+		params: []param{pf("oldestHeight", "uint32", "bftVotes.blockBFTInfos[len(bftVotes.blockBFTInfos) - 1].height", "BFTBlockHeader.height"),
+			pf("maxHeightCertified", "uint32", "bftVotes.maxHeightCertified", "BFTVotes.maxHeightCertified")}},
+	{file: "pkg/consensus/liskbft/api.go", recv: "API", name: "ImpliesMaximalPrevotes", lean: "bftImpliesWrongHeight", kind: "cond", sel: "blockHeader.Height() != currentHeight",
+		params: []param{ps("height", "uint32", "blockHeader.Height()"), p("currentHeight", "uint32")}},
+	{file: "pkg/consensus/liskbft/api.go", recv: "API", name: "ImpliesMaximalPrevotes", lean: "bftImpliesNoPrevotes", kind: "cond", sel: "previousHeight >= ",
+		params: []param{p("previousHeight", "uint32"), ps("height", "uint32", "blockHeader.Height()")}},
+	{file: "pkg/consensus/liskbft/api.go", recv: "API", name: "ImpliesMaximalPrevotes", lean: "bftImpliesInvalidHeights", kind: "cond", sel: "currentHeight < previousHeight",
+		params: []param{p("currentHeight", "uint32"), p("previousHeight", "uint32")}},
+	{file: "pkg/consensus/liskbft/api.go", recv: "API", name: "ImpliesMaximalPrevotes", lean: "bftImpliesOffset", kind: "rhs", sel: "offset", tok: ":=", want: "uint32",
+		params: []param{p("currentHeight", "uint32"), p("previousHeight", "uint32")}},
+	{file: "pkg/consensus/liskbft/api.go", recv: "API", name: "ImpliesMaximalPrevotes", lean: "bftImpliesBeyondWindow", kind: "cond", sel: "int(offset) >= ",
+		params: []param{p("offset", "uint32"), ps("n", "int", "len(bftVotes.blockBFTInfos)")}},
+	{file: "pkg/consensus/liskbft/api.go", recv: "API", name: "NextHeightBFTParameters", lean: "bftNextParamsStart", kind: "index", sel: "bytes.FromUint32", nth: 1, count: 2,
+		params: []param{p("height", "uint32")}},
+	{file: "pkg/consensus/liskbft/api.go", recv: "API", name: "SetBFTParameters", lean: "bftSetParamsNextHeight", kind: "rhs", sel: "nextHeight", tok: ":=", want: "uint32",
+		params: []param{p("currentHeight", "uint32")}},
+	{file: "pkg/consensus/liskbft/api.go", recv: "API", name: "SetBFTParameters", lean: "bftNewValidatorMinActiveHeight", kind: "field", lit: "ActiveValidator", sel: "minActiveHeight",
+		params: []param{p("nextHeight", "uint32")}},
+	{file: "pkg/consensus/liskbft/api.go", recv: "API", name: "SetBFTParameters", lean: "bftNewValidatorLargestHeightPrecommit", kind: "field", lit: "ActiveValidator", sel: "largestHeightPrecommit",
+		params: []param{p("nextHeight", "uint32")}},
+	{file: "pkg/consensus/liskbft/api.go", recv: "API", name: "SetGeneratorKeys", lean: "bftSetKeysNextHeightEmpty", kind: "rhs", sel: "nextHeight", tok: ":=", want: "uint32",
+		params: []param{pf("maxHeightPrevoted", "uint32", "bftVotes.maxHeightPrevoted", "BFTVotes.maxHeightPrevoted")}},
+	{file: "pkg/consensus/liskbft/api.go", recv: "API", name: "SetGeneratorKeys", lean: "bftSetKeysNextHeight", kind: "rhs", sel: "nextHeight", tok: "=", want: "uint32",
+		params: []param{pf("height", "uint32", "bftVotes.blockBFTInfos[0].height", "BFTBlockHeader.height")}},
 }
 
 // ---- typed expressions -------------------------------------------------------------------------
@@ -893,6 +973,26 @@ func (t *tr2) call(x *ast.CallExpr) tv {
 			f = "Max.max"
 		}
 		return tv{s: "(" + f + " " + a.s + " " + b.s + ")", ty: a.ty}
+	}
+	// ints.Min / ints.Max of three or more typed values of one integer type (variadic): nested, in argument order
+	if (name == "ints.Min" || name == "ints.Max") && len(x.Args) > 2 {
+		f := "Min.min"
+		if name == "ints.Max" {
+			f = "Max.max"
+		}
+		vs := []tv{}
+		for _, a := range x.Args {
+			v := t.expr(a)
+			if v.ty == untyped || !isInteger(v.ty) || (len(vs) > 0 && v.ty != vs[0].ty) {
+				return t.fail(x, "variadic ints.Min/Max on untyped or mismatched types")
+			}
+			vs = append(vs, v)
+		}
+		acc := vs[len(vs)-1].s
+		for i := len(vs) - 2; i >= 0; i-- {
+			acc = "(" + f + " " + vs[i].s + " " + acc + ")"
+		}
+		return tv{s: acc, ty: vs[0].ty}
 	}
 	// another translated plain function (same package: f(…); other package: pkg.f(…))
 	base := name
@@ -1816,6 +1916,48 @@ func (t *tr2) gen(f *ast.File, fd *ast.FuncDecl) string {
 		}
 		return t.def(fd, "one iteration of the loop `for cond { assignments }` whose condition contains `"+tg.sel+"`: `some` of the new values of ("+strings.Join(vars, ", ")+") while the condition holds, `none` = the loop ends",
 			tg.lean, t.paramList(), "Option ("+strings.Join(tys, " × ")+")", "  if "+c.s+" then\n"+body+"    some "+tup+"\n  else\n    none")
+
+	case "forCond", "forPost":
+		// the condition / the post statement (`i++`, `i += e`, `i = e`: the new value of i) of the `for` statement
+		// (with or without init / post statements) whose condition contains `sel`
+		var loops []*ast.ForStmt
+		ast.Inspect(fd.Body, func(n ast.Node) bool {
+			if fs, ok := n.(*ast.ForStmt); ok && fs.Cond != nil && strings.Contains(types.ExprString(fs.Cond), tg.sel) {
+				loops = append(loops, fs)
+			}
+			return true
+		})
+		i, ok := t.pick(fd, "`for` statement whose condition contains `"+tg.sel+"`", len(loops))
+		if !ok {
+			return ""
+		}
+		fs := loops[i]
+		if tg.kind == "forCond" {
+			c := t.expr(fs.Cond)
+			if t.err != nil {
+				return ""
+			}
+			if c.ty != "bool" || len(t.panics) > 0 {
+				return t.fail(fs, "loop condition is not a panic-free boolean").s
+			}
+			return t.def(fd, t.occ("condition of the `for` statement whose condition contains `"+tg.sel+"`"), tg.lean, t.paramList(), "Bool", "  "+c.s)
+		}
+		if fs.Post == nil {
+			return t.fail(fs, "`for` statement without post statement").s
+		}
+		vars := t.assignedVars([]ast.Stmt{fs.Post})
+		if t.err != nil || len(vars) != 1 {
+			return t.fail(fs, "post statement must assign exactly one variable").s
+		}
+		body := t.assign(fs.Post, "  ")
+		if t.err != nil {
+			return ""
+		}
+		if len(t.panics) > 0 {
+			return t.fail(fs, "post statement may panic").s
+		}
+		return t.def(fd, "new value of `"+vars[0]+"` after the post statement of the `for` statement whose condition contains `"+tg.sel+"` ("+string(t.env[vars[0]])+")",
+			tg.lean, t.paramList(), leanTy(t.env[vars[0]]), body+"  "+lname(vars[0]))
 
 	case "appendLoop":
 		return t.appendLoop(fd)
